@@ -1,6 +1,7 @@
 package p12
 
 import (
+	"bytes"
 	"fmt"
 	"math"
 	"os"
@@ -81,6 +82,8 @@ func (P) exec(line string) string {
 		return execTmpl(parseScenario(f[2:]))
 	case "two":
 		return execTwo(parseScenario(f[2:]))
+	case "par":
+		return execPar(f[2:])
 	}
 	return "bad-op"
 }
@@ -99,9 +102,13 @@ func joinInts(xs []int64) string {
 func execTmpl(s *scenario) string {
 	w := getWorld(s.world)
 	var ci *chainInst
-	if s.roK > 0 || s.pb || s.fwd > 0 {
+	if s.roK > 0 || s.pb || s.fwd > 0 || s.uc {
 		var err error
-		if ci, err = w.instantiate(); err != nil {
+		cache := uint64(1 << 20)
+		if s.uc {
+			cache = 0
+		}
+		if ci, err = w.instantiateCache(cache); err != nil {
 			panic(err)
 		}
 		defer ci.close()
@@ -169,7 +176,14 @@ func execTmpl(s *scenario) string {
 
 	policy := &mining.Policy{BlockMinWeight: s.minW, BlockMaxWeight: s.maxW, BlockPrioritySize: s.prioSize,
 		TxMinFreeFee: btcutil.Amount(s.minFree), BlockMinSize: s.minW / 4, BlockMaxSize: s.maxW / 4}
-	gen := mining.NewBlkTmplGenerator(policy, ci.params, src, ci.chain, ci.clock, ci.sigc, ci.hashc)
+	sigc := ci.sigc
+	if s.nc {
+		sigc = nil
+	}
+	gen := mining.NewBlkTmplGenerator(policy, ci.params, src, ci.chain, ci.clock, sigc, ci.hashc)
+	if gen.TxSource() != src || gen.BestSnapshot().Hash != best.Hash || !mining.MinimumMedianTime(best).Equal(best.MedianTime.Add(time.Second)) {
+		return "accessors"
+	}
 	var pay address.Address
 	if s.addr {
 		pay = payAddress(ci.params)
@@ -289,7 +303,9 @@ func (s *scenario) observe(w *world, ci *chainInst, bp *builtPool, gen *mining.B
 		}
 		out := int64(0)
 		for _, o := range t.outs {
-			out += o.amt
+			if o.kind != 'D' {
+				out += o.amt
+			}
 		}
 		if tmpl.Fees[i+1] != in-out {
 			feeOK = false
@@ -321,6 +337,12 @@ func (s *scenario) observe(w *world, ci *chainInst, bp *builtPool, gen *mining.B
 		}
 	}
 	addrOK := tmpl.ValidPayAddress == s.addr && tmpl.Height == s.nextH
+	// secondary APIs must agree with the template: merkle tree store root,
+	// weight as the sum of its parts, AddWitnessCommitment called directly on
+	// a commitment-free copy of the coinbase
+	if !s.apisAgree(tmpl, ublk, weight) {
+		addrOK = false
+	}
 
 	ccb := ci.chain.CheckConnectBlockTemplate(ublk) == nil
 
@@ -331,7 +353,16 @@ func (s *scenario) observe(w *world, ci *chainInst, bp *builtPool, gen *mining.B
 	for i, tx := range blk.Transactions {
 		upd.Transactions[i] = tx.Copy()
 	}
-	updOK := gen.UpdateBlockTime(&upd) == nil && gen.UpdateExtraNonce(&upd, s.nextH, 0x1234567) == nil
+	nonce := uint64(0x1234567)
+	if s.en != 0 {
+		nonce = s.en
+	}
+	updOK := gen.UpdateBlockTime(&upd) == nil && gen.UpdateExtraNonce(&upd, s.nextH, nonce) == nil
+	if want, err := mining.VerifStandardCoinbaseScript(s.nextH, nonce); err != nil ||
+		!bytes.Equal(upd.Transactions[0].TxIn[0].SignatureScript, want) ||
+		upd.Header.Timestamp.Unix() != headerTimeAt(s.now+31, s.mtp) || upd.Header.Bits != blk.Header.Bits {
+		updOK = false
+	}
 	ub := btcutil.NewBlock(&upd)
 	ub.SetHeight(s.nextH)
 	if updOK {
@@ -428,4 +459,47 @@ func (s *scenario) realPool(ci *chainInst, bp *builtPool) (*mempool.TxPool, stri
 		}
 	}
 	return mp, ""
+}
+
+func headerTimeAt(now, mtp int64) int64 {
+	if now < mtp+1 {
+		return mtp + 1
+	}
+	return now
+}
+
+// apisAgree cross-checks the exported helpers of the anchor files against the
+// template they should describe.
+func (s *scenario) apisAgree(tmpl *mining.BlockTemplate, ublk *btcutil.Block, weight int64) bool {
+	txs := ublk.Transactions()
+	store := blockchain.BuildMerkleTreeStore(txs, false)
+	if len(store) == 0 || store[len(store)-1] == nil || *store[len(store)-1] != tmpl.Block.Header.MerkleRoot ||
+		blockchain.CalcMerkleRoot(txs, false) != tmpl.Block.Header.MerkleRoot {
+		return false
+	}
+	sum := int64(4 * (80 + wire.VarIntSerializeSize(uint64(len(txs)))))
+	for _, tx := range txs {
+		sum += blockchain.GetTransactionWeight(tx)
+	}
+	if sum != weight || int64(tmpl.Block.SerializeSizeStripped()*3+tmpl.Block.SerializeSize()) != weight {
+		return false
+	}
+	if tmpl.WitnessCommitment != nil {
+		cb := tmpl.Block.Transactions[0].Copy()
+		cb.TxOut = cb.TxOut[:len(cb.TxOut)-1]
+		cb.TxIn[0].Witness = nil
+		cbt := btcutil.NewTx(cb)
+		fresh := make([]*btcutil.Tx, len(txs))
+		copy(fresh, txs)
+		fresh[0] = cbt
+		got := mining.AddWitnessCommitment(cbt, fresh)
+		if !bytes.Equal(got, tmpl.WitnessCommitment) || cbt.MsgTx().TxHash() != tmpl.Block.Transactions[0].TxHash() {
+			return false
+		}
+		wstore := blockchain.BuildMerkleTreeStore(txs, true)
+		if *wstore[len(wstore)-1] != blockchain.CalcMerkleRoot(txs, true) {
+			return false
+		}
+	}
+	return true
 }
